@@ -26,8 +26,8 @@ static Fix& fix() {
   return F;
 }
 
-enum OpK { K_INIT, K_FREE, K_READ_A, K_READ_B, K_READ_MISSING, K_READ_CORRUPT, K_READMEM_A, K_READMEM_CORRUPT, K_WRITE_OK, K_WRITE_BAD, K_WRITE_MEM, K_GETKEY, K_READKEY, K_WRITEKEY_OK, K_WRITEKEY_BAD, K_ACCESSORS, K_EVAL, K_FIT_OK, K_FIT_BAD, K_GRIDEVAL, K_PERMUTE_OK, K_PERMUTE_BAD, K_CONVOLVE, K_N };
-static const char* KN[] = {"init", "free", "read(A)", "read(B)", "read(missing)", "read(corrupt)", "read_mem(A)", "read_mem(corrupt)", "write(ok)", "write(unwritable)", "write_mem", "get_key", "read_key", "write_key(ok)", "write_key(reserved)", "accessors", "evaluate", "glamfit(valid)", "glamfit(invalid)", "grideval", "permute(valid)", "permute(invalid)", "convolve"};
+enum OpK { K_INIT, K_FREE, K_READ_A, K_READ_B, K_READ_MISSING, K_READ_CORRUPT, K_READMEM_A, K_READMEM_CORRUPT, K_WRITE_OK, K_WRITE_BAD, K_WRITE_MEM, K_GETKEY, K_READKEY, K_WRITEKEY_OK, K_WRITEKEY_BAD, K_ACCESSORS, K_EVAL, K_FIT_OK, K_FIT_BAD, K_FIT_MONO, K_GRIDEVAL, K_PERMUTE_OK, K_PERMUTE_BAD, K_CONVOLVE, K_N };
+static const char* KN[] = {"init", "free", "read(A)", "read(B)", "read(missing)", "read(corrupt)", "read_mem(A)", "read_mem(corrupt)", "write(ok)", "write(unwritable)", "write_mem", "get_key", "read_key", "write_key(ok)", "write_key(reserved)", "accessors", "evaluate", "glamfit(valid)", "glamfit(invalid)", "glamfit(monotonic)", "grideval", "permute(valid)", "permute(invalid)", "convolve"};
 struct Op { int kind, h; std::string label() const { return vf::fmt("h%d.%s", h, KN[kind]); } };
 
 struct World { struct splinetable c[2]; std::unique_ptr<Table> t[2]; int nconv[2]; World() { c[0].data = c[1].data = nullptr; nconv[0] = nconv[1] = 0; } };
@@ -98,8 +98,8 @@ static void step(World& w, const Op& op, std::string& oc, std::string& ot, bool&
           std::vector<double> g1(nd + 1), g2(nd + 1); ndsplineeval_gradient(h, x.data(), c1.data(), g1.data()); t->ndsplineeval_gradient(x.data(), c2.data(), g2.data()); for (uint32_t i = 0; i <= nd; i++) { oc += vf::fmt(" %a", g1[i]); ot += vf::fmt(" %a", g2[i]); }
           std::vector<unsigned> der(nd, 1); oc += vf::fmt(" %a", ndsplineeval_deriv(h, x.data(), c1.data(), der.data())); ot += vf::fmt(" %a", t->ndsplineeval_deriv(x.data(), c2.data(), der.data())); } }
       break; }
-    case K_FIT_OK: case K_FIT_BAD: { if (!init) { applicable = false; return; }
-      FitArgs a = fitargs(); bool bad = op.kind == K_FIT_BAD; uint32_t order = 2, po = bad ? 7u : 1u; double sm = 0.1; uint32_t mono = PHOTOSPLINE_GLAM_NO_MONODIM;
+    case K_FIT_OK: case K_FIT_BAD: case K_FIT_MONO: { if (!init) { applicable = false; return; }
+      FitArgs a = fitargs(); bool bad = op.kind == K_FIT_BAD; uint32_t order = 2, po = bad ? 7u : 1u; double sm = 0.1; uint32_t mono = op.kind == K_FIT_MONO ? 0u : PHOTOSPLINE_GLAM_NO_MONODIM;   // the monotonic fit goes through the NNLS solver and its worker threads (saw-tooth data: the constraint is active)
       unsigned* ip = a.idx.data(); unsigned ranges = 12; ::ndsparse nd; nd.rows = 12; nd.ndim = 1; nd.i = &ip; nd.ranges = &ranges; nd.x = a.y.data();
       const double* cp = a.xs.data(); const double* kp = a.knots.data(); uint64_t nk = a.knots.size();
       oc = rc(splinetable_glamfit(h, &nd, a.w.data(), &cp, &order, &kp, &nk, &sm, &po, mono, false));
